@@ -1,6 +1,7 @@
 package main
 
 import (
+	"os"
 	"fmt"
 	"go/ast"
 	"go/token"
@@ -66,7 +67,24 @@ type Ctx struct {
 	termSubst        []map[*ssa.Parameter]string
 	rangeCheckerMemo map[*ssa.Function]bool
 	tableCovered     map[string]string // function name -> key of the finite table that walked it and passed
+	dimsGateMemo     map[string]dimsGateRes
+	initMemo         *initState
+	recMemo          map[string]recRes
+	expandHelpers    bool // successTerms follows unexported helpers that compute the output (R16)
+	d6Witness        string
 	eff              *effects
+}
+
+// declined records that a finite table saw code it could not reach with any cell and leaves the decision to the
+// structural rule.
+func (c *Ctx) declined(table string, uncovered []string) {
+	if len(uncovered) > 3 {
+		uncovered = append(uncovered[:3:3], fmt.Sprintf("and %d more", len(uncovered)-3))
+	}
+	c.notes = append(c.notes, table+" does not decide: no cell reaches "+strings.Join(uncovered, "; "))
+	if os.Getenv("GONNXCHECK_DECLINED") != "" {
+		fmt.Println("DECLINED:", c.notes[len(c.notes)-1])
+	}
 }
 
 func (c *Ctx) add(o Obligation) {
